@@ -156,6 +156,13 @@ func makeOverlay(b *Build, src string) (string, error) {
 }
 
 // refCheckBuild shows every file of a build to the reference parser.
+// compileAlways: files whose text holds rules generated from other profiles
+// (stack / exec directives) are compiled in full in every tier: conflicting x
+// modifiers only show when the rules are merged, which a parse-only run skips.
+func compileAlways(srcText string) bool {
+	return strings.Contains(srcText, "#aa:stack") || strings.Contains(srcText, "#aa:exec")
+}
+
 func refCheckBuild(b *Build, src string, compile bool) ([]refFileResult, error) {
 	ov, err := makeOverlay(b, src)
 	if err != nil {
@@ -182,9 +189,11 @@ func refCheckBuild(b *Build, src string, compile bool) ([]refFileResult, error) 
 	// include them (the statement): parsing a profile makes the reference parser
 	// read its whole include closure. Files that no profile includes are out of
 	// the statement's reach; how many are reached is measured by includeClosure.
+	srcIdx := sourceTextIndex()
 	res := make([]refFileResult, len(jobs))
 	parallel(len(jobs), 16, func(i int) {
-		ok, msg := ref.AcceptsFile(jobs[i].path, compile)
+		full := compile || compileAlways(srcIdx[strings.TrimSuffix(jobs[i].name, ".apparmor.d")])
+		ok, msg := ref.AcceptsFile(jobs[i].path, full)
 		msg = strings.ReplaceAll(msg, ov, "<overlay>")
 		res[i] = refFileResult{File: jobs[i].name, OK: ok, Msg: msg}
 	})
@@ -199,7 +208,10 @@ func c01Configs() (parse []Config, compile []Config) {
 		}
 		return all, compile
 	}
-	return coveringSample(all, 8, seedInt()), nil
+	// quick: 8 configurations parsed, one --full configuration compiled completely
+	d := allDists[seedInt()%len(allDists)]
+	av := primaryAV[seedInt()%len(primaryAV)]
+	return coveringSample(all, 8, seedInt()), []Config{{Dist: d, ABI: av.ABI, Version: av.Ver, Full: true, Mode: allModes[seedInt()%3]}}
 }
 
 func sourceTextIndex() map[string]string {
